@@ -15,11 +15,29 @@ package main
 // TransferError exactly on the readers/writers whose handle was still open, before Close,
 // every context cancelled, no package goroutine left.
 //
+// Option dimensions (c11Configs; every value is a field of ssCfg, so replays carry it):
+//   - os-backed: ReadOnly() (refusals leave handle table, descriptors and tree alone; the tree must end as
+//     it began), WithDebug(recording writer) (the end-of-Serve sweep reports exactly the handles still open,
+//     each once, and every file — seen through a counting wrapper — is closed exactly once all the same),
+//     working directory = the tree / <tree>/home/u with relative session paths;
+//   - request server: WithStartDirectory("/home/u") with absolute and with relative session paths; handler
+//     OBJECTS with / without io.Closer and with / without TransferError (type variants built by struct
+//     embedding, srvsession_run.go; what a value really implements is read back by type assertion and the
+//     expectations follow it: "closed exactly once" only for objects that can be closed, "TransferError
+//     exactly when the handle was still open" only for objects that have the method; contexts are checked
+//     for all); HANDLERS with / without OpenFileWriter (read-write opens then yield write handles through
+//     Filewrite), LstatFileLister, PosixRenameFileCmder, StatVFSFileCmder (self-test by type assertion
+//     whenever a server is built: a mismatch is a tie/server-start failure).
+//
 // Model comparison (srvsession_model.go): every session is also replayed in the executable
 // Lean model of the handle table (driver op `c11.run`, configuration bits from `cur.cfg c11rs` /
 // `cur.cfg c11os`, i.e. regenerated from the source): status class of every handle request,
 // handle string of every OPEN / OPENDIR, per object closed / TransferError / context / touched
 // after Serve, and the table before the end and after it.  Key c11/c11.run/<rs|os>.
+// The option dimensions stay comparable: fields an object cannot show (closed count without Close,
+// TransferError count without the method) are left out of the comparison, WRITE / FSETSTAT refused by a
+// ReadOnly() server are no table action (like path requests); a configuration the model cannot express
+// at all (ssModelInexpressible) is skipped for the model comparison only, bucket model/skip/configuration/….
 
 import (
 	"encoding/json"
@@ -32,10 +50,143 @@ import (
 
 func init() { register("c11", checkC11) }
 
+// c11Cfg is a server configuration and the share of the sessions it meets (1 = all, n = every n-th, rotating).
+type c11Cfg struct {
+	cfg    ssCfg
+	share  int
+	sparse bool // thorough: the connection is ended after a PRNG subset of the request indices (as in quick), not after every one
+}
+
+const c11Start = "/home/u"
+
+// c11Dims names the option values of a configuration, one histogram bucket per dimension.
+func c11Dims(cfg ssCfg) []string {
+	k := cfg.Kind
+	loc := "absolute-paths"
+	switch {
+	case cfg.WorkDir && cfg.Start != "":
+		loc = "relative-paths-in-" + cfg.Start
+	case cfg.WorkDir:
+		loc = "relative-paths"
+	case cfg.Start != "":
+		loc = "absolute-paths+start-directory-" + cfg.Start
+	}
+	d := []string{k + "/paths=" + loc, fmt.Sprintf("%s/allocator=%v", k, cfg.Alloc)}
+	if k == "os" {
+		return append(d, fmt.Sprintf("os/ReadOnly=%v", cfg.RO), fmt.Sprintf("os/WithDebug=%v", cfg.Debug))
+	}
+	d = append(d, fmt.Sprintf("rs/close-error-percent=%d", cfg.CloseErr))
+	for _, t := range []string{"closer", "terr", "alt", "openfile", "lstat", "posixrename", "statvfs"} {
+		d = append(d, fmt.Sprintf("rs/without-%s=%v", t, cfg.without(t)))
+	}
+	return d
+}
+
+// c11Configs: the eight configurations every session meets, plus the option dimensions.
+//
+// os-backed server: ReadOnly() x WithDebug(w) x {absolute paths, working directory + relative paths,
+// working directory <tree>/home/u + relative paths} x allocator.
+// Request server: {default start directory + absolute paths, WithStartDirectory("/") + relative paths,
+// WithStartDirectory("/home/u") + absolute paths, WithStartDirectory("/home/u") + relative paths} x allocator x
+// handler objects {with Close and TransferError, without Close, without TransferError, without both, and the
+// three mixed populations where only every second object lacks them} x handlers {FilePut with / without
+// OpenFileWriter} x {FileList with / without LstatFileLister} x {FileCmd with / without PosixRenameFileCmder}
+// x {with / without StatVFSFileCmder}, and first-Close errors (25 %, 100 %) on some of them.
+//
+// quick: the eight base configurations on every session and 13 more (one or two per new option value,
+// allocator / path style rotating with the seed), each on every second session; thorough: the eight base
+// configurations on every session (ended after every request index) and the full product, each member on a
+// rotating share of the sessions (ended after 16 request indices each).
+func c11Configs(c *lib.Ctx, thorough bool) []c11Cfg {
+	ces := c.Rand.Uint32()
+	out := []c11Cfg{}
+	seen := map[string]bool{}
+	add := func(cfg ssCfg, share int) {
+		if k := cfg.String(); !seen[k] {
+			seen[k] = true
+			out = append(out, c11Cfg{cfg: cfg, share: share, sparse: share > 1})
+		}
+	}
+	for _, cfg := range []ssCfg{{Kind: "os"}, {Kind: "os", Alloc: true}, {Kind: "rs"}, {Kind: "rs", Alloc: true}, {Kind: "os", WorkDir: true}, {Kind: "rs", WorkDir: true},
+		{Kind: "rs", CloseErr: 25, CloseErrSeed: ces}, {Kind: "rs", Alloc: true, CloseErr: 100}} {
+		add(cfg, 1)
+	}
+	objVariants := []string{"", "closer", "terr", "closer,terr", "alt,closer", "alt,terr", "alt,closer,terr"}
+	join := func(a, b string) string {
+		if a == "" || b == "" {
+			return a + b
+		}
+		return a + "," + b
+	}
+	if !thorough {
+		b := func(n uint) bool { return c.Seed>>n&1 == 1 }
+		all := "closer,terr,openfile,lstat,posixrename,statvfs"
+		for _, cfg := range []ssCfg{
+			{Kind: "os", RO: true, Alloc: b(0)},
+			{Kind: "os", RO: true, WorkDir: true, Start: c11Start, Alloc: !b(0), Debug: b(1)},
+			{Kind: "os", Debug: true, Alloc: b(2)},
+			{Kind: "os", Debug: true, WorkDir: true, Alloc: !b(2), Start: []string{"", c11Start}[c.Seed&1]},
+			{Kind: "rs", Start: c11Start, WorkDir: true, Alloc: b(1)},
+			{Kind: "rs", Start: c11Start, Alloc: !b(1)},
+			{Kind: "rs", Without: "closer", Alloc: b(0)},
+			{Kind: "rs", Without: "terr", Alloc: !b(0)},
+			{Kind: "rs", Without: "closer,terr", WorkDir: b(2)},
+			{Kind: "rs", Without: objVariants[4+int(c.Seed&0xffff)%3], CloseErr: 25 + 75*int(c.Seed&1), CloseErrSeed: ces},
+			{Kind: "rs", Without: "openfile", Alloc: b(1)},
+			{Kind: "rs", Without: "lstat,posixrename,statvfs", Alloc: !b(1), CloseErr: 25, CloseErrSeed: ces},
+			{Kind: "rs", Without: all, Start: c11Start, WorkDir: true},
+		} {
+			add(cfg, 2)
+		}
+		return out
+	}
+	var prod []ssCfg
+	for _, alloc := range []bool{false, true} {
+		for _, ro := range []bool{false, true} {
+			for _, dbg := range []bool{false, true} {
+				for _, loc := range []ssCfg{{}, {WorkDir: true}, {WorkDir: true, Start: c11Start}} {
+					prod = append(prod, ssCfg{Kind: "os", Alloc: alloc, RO: ro, Debug: dbg, WorkDir: loc.WorkDir, Start: loc.Start})
+				}
+			}
+		}
+		for _, loc := range []ssCfg{{}, {WorkDir: true}, {Start: c11Start}, {WorkDir: true, Start: c11Start}} {
+			for _, ov := range objVariants {
+				for hv := 0; hv < 16; hv++ {
+					w := ov
+					for bit, t := range []string{"openfile", "lstat", "posixrename", "statvfs"} {
+						if hv>>bit&1 == 1 {
+							w = join(w, t)
+						}
+					}
+					cfg := ssCfg{Kind: "rs", Alloc: alloc, WorkDir: loc.WorkDir, Start: loc.Start, Without: w}
+					// first-Close errors where some object can be closed at all: rotating 0 / 25 % / 100 %
+					if !cfg.without("closer") || cfg.without("alt") {
+						switch (len(prod) + int(c.Seed&0xffff)) % 3 {
+						case 1:
+							cfg.CloseErr, cfg.CloseErrSeed = 25, ces
+						case 2:
+							cfg.CloseErr = 100
+						}
+					}
+					prod = append(prod, cfg)
+				}
+			}
+		}
+	}
+	for _, cfg := range prod {
+		add(cfg, c11ThoroughShare)
+	}
+	return out
+}
+
+// every member of the option product meets 1/c11ThoroughShare of the sessions of the thorough tier (3 of
+// 132), each ended at 16 request indices (first, last, PRNG) in the 5 ways
+const c11ThoroughShare = 44
+
 func checkC11(c *lib.Ctx) {
 	r := c.R
 	thorough := c.Tier == "thorough"
-	r.Rule = "sessions: INIT + PRNG mix of OPEN (r / w+creat / rw, existing and missing files, handler errors), OPENDIR (ok, missing, not a directory), READ/WRITE/FSTAT/FSETSTAT/READDIR on live handles, CLOSE, repeated CLOSE, CLOSE and other requests on never-issued handles (\"999\", \"\", \"abc\", …), use-after-close, path requests; flavours: small, 32 handles opened first, all closed at the end or left open, and \"worn handle\" (per handle kind r/w/rw/dir: 32 sequential uses so that every pool worker has served it, 16 pipelined, CLOSE, then 16 sequential + 16 pipelined uses of the closed handle, second CLOSE, one more use, 4 pipelined CLOSEs); request-server flavours where 25 % (PRNG) or 100 % of the reader/writer/rw/lister objects fail their first Close; against os-backed Server (absolute paths / working directory) and RequestServer with counting handlers, allocator on and off. For each session the connection is ended after request index i (quick: first, last and a PRNG subset; thorough: every i) in 5 ways: EOF after the reply, EOF without reading the reply, EOF inside the next packet, transport error, transport error inside the next packet. Each case runs on a fresh server in a child process; non-trivial when at least one request follows INIT; distinct by (server config, session, cut index, mode, offset)"
+	r.Rule = "sessions: INIT + PRNG mix of OPEN (r / w+creat / rw, existing and missing files, handler errors), OPENDIR (ok, missing, not a directory), READ/WRITE/FSTAT/FSETSTAT/READDIR on live handles, CLOSE, repeated CLOSE, CLOSE and other requests on never-issued handles (\"999\", \"\", \"abc\", …), use-after-close, path requests; flavours: small, 32 handles opened first, all closed at the end or left open, \"read-only\" (every modifying request kind and OPEN with every combination of write / create / truncate / append / excl / read flags on existing and new names, the handles used and partly closed) and \"worn handle\" (per handle kind r/w/rw/dir: 32 sequential uses so that every pool worker has served it, 16 pipelined, CLOSE, then 16 sequential + 16 pipelined uses of the closed handle, second CLOSE, one more use, 4 pipelined CLOSEs); request-server flavours where 25 % (PRNG) or 100 % of the reader/writer/rw/lister objects fail their first Close; against os-backed Server (absolute paths / working directory) and RequestServer with counting handlers, allocator on and off (these eight configurations meet every session); option dimensions — os-backed: ReadOnly() x WithDebug(recording writer) x {absolute, working directory + relative paths, working directory <tree>/home/u + relative paths} x allocator; request server: {default, WithStartDirectory(\"/\") + relative, WithStartDirectory(\"/home/u\") + absolute, + relative paths} x allocator x handler objects {with / without io.Closer} x {with / without TransferError} (also mixed: only every second object without) x FilePut {with / without OpenFileWriter} x FileList {with / without LstatFileLister} x FileCmd {with / without PosixRenameFileCmder} x {with / without StatVFSFileCmder} (type variants by struct embedding, verified by type assertion when the server is built) x first-Close errors; quick: 13 members of the product (every new option value at least once, allocator / path style rotating with the seed) on every second session, thorough: the whole product, each member on a rotating 1/44 of the sessions (3 of 132) with the connection ended at 16 request indices each. For each session the connection is ended after request index i (quick: first, last and a PRNG subset; thorough: every i) in 5 ways: EOF after the reply, EOF without reading the reply, EOF inside the next packet, transport error, transport error inside the next packet. Each case runs on a fresh server in a child process; non-trivial when at least one request follows INIT; distinct by (server config, session, cut index, mode, offset)"
 	base, err := ssMkBase(ssBaseRnd())
 	if err != nil {
 		r.Fail(lib.Failure{Kind: "tie", Key: "tmpdir", What: err.Error()})
@@ -66,10 +217,10 @@ func checkC11(c *lib.Ctx) {
 		return
 	}
 
-	nSmall, nMany, nChurn, subset := 10, 3, 2, 14
-	midOffs := 1
+	nSmall, nMany, nChurn, nRO, subset := 10, 3, 2, 1, 14
+	midOffsAll := 1
 	if thorough {
-		nSmall, nMany, nChurn, midOffs = 100, 20, 8, 3
+		nSmall, nMany, nChurn, nRO, midOffsAll = 100, 20, 8, 4, 3
 	}
 	var progs [][]ssStep
 	for i := 0; i < nSmall; i++ {
@@ -81,34 +232,62 @@ func checkC11(c *lib.Ctx) {
 	for i := 0; i < nChurn; i++ {
 		progs = append(progs, ssGenChurn(c.Rand, i%2 == 0))
 	}
+	// the "read-only" flavour: every modifying request kind and OPEN with every combination of modifying
+	// and harmless pflags; it meets every configuration and in particular every ReadOnly() one
+	roFrom := len(progs)
+	for i := 0; i < nRO; i++ {
+		progs = append(progs, ssGenReadOnly(c.Rand, i%2 == 1, 0, 0))
+	}
 	// close-error flavours: a quarter of the handler objects (PRNG per session run) / every object
 	// fails its first Close; the handle must die all the same and the object be closed exactly once
-	cfgs := []ssCfg{{Kind: "os"}, {Kind: "os", Alloc: true}, {Kind: "rs"}, {Kind: "rs", Alloc: true}, {Kind: "os", WorkDir: true}, {Kind: "rs", WorkDir: true},
-		{Kind: "rs", CloseErr: 25, CloseErrSeed: c.Rand.Uint32()}, {Kind: "rs", Alloc: true, CloseErr: 100}}
+	cfgs := c11Configs(c, thorough)
+	{ // the handler / object type variants implement exactly what their configuration says (type assertions)
+		var l []ssCfg
+		for _, cc := range cfgs {
+			l = append(l, cc.cfg)
+		}
+		bad, n := cntVariantsSelfTest(l)
+		r.Histogram["selftest/interface-variants-verified-by-type-assertion"] += n
+		for _, b := range bad {
+			r.Fail(lib.Failure{Kind: "tie", Key: "tie/interface-variant-selftest", What: b})
+		}
+		if len(bad) > 0 {
+			return
+		}
+	}
 	modes := []string{"eof", "noreply", "mid", "break", "breakmid"}
 	var jobs []*ssPJob
-	for _, p := range progs {
+	nPairs := 0
+	for pi, p := range progs {
 		for _, st := range p {
 			r.Hist("op/" + st.Op)
 		}
 		n := len(p)
-		var cuts []int
-		if thorough {
-			for i := 0; i < n; i++ {
-				cuts = append(cuts, i)
-			}
-		} else {
+		var allCuts, someCuts []int
+		for i := 0; i < n; i++ {
+			allCuts = append(allCuts, i)
+		}
+		{
 			seen := map[int]bool{0: true, n - 1: true}
-			cuts = []int{0, n - 1}
-			for len(cuts) < subset+2 && len(cuts) < n {
+			someCuts = []int{0, n - 1}
+			for len(someCuts) < subset+2 && len(someCuts) < n {
 				if i := c.Rand.Intn(n); !seen[i] {
 					seen[i] = true
-					cuts = append(cuts, i)
+					someCuts = append(someCuts, i)
 				}
 			}
 		}
-		for _, cfg := range cfgs {
+		for ci, cc := range cfgs {
+			if (pi+ci+int(c.Seed&0xffff))%cc.share != 0 && !(cc.cfg.RO && pi >= roFrom && (!thorough || pi-roFrom == ci%nRO)) {
+				continue // a configuration of the option product meets a rotating share of the sessions (a ReadOnly() one always a read-only flavour)
+			}
+			cfg := cc.cfg
+			nPairs++
 			pid := ssProgID(cfg, p)
+			cuts, midOffs := someCuts, 1
+			if thorough && !cc.sparse {
+				cuts, midOffs = allCuts, midOffsAll
+			}
 			for _, i := range cuts {
 				for _, m := range modes {
 					if m != "mid" && m != "breakmid" {
@@ -132,6 +311,9 @@ func checkC11(c *lib.Ctx) {
 		r.Case(j.Cfg.String()+" "+j.PID+" "+string(eb), j.End.After >= 1)
 		r.Hist("end/" + j.End.Mode)
 		r.Hist("cfg/" + j.Cfg.String())
+		for _, d := range c11Dims(j.Cfg) {
+			r.Hist("option/" + d)
+		}
 		if nSample < 5 && i%(len(jobs)/5+1) == 0 {
 			nSample++
 			r.Sample(map[string]any{"cfg": j.Cfg.String(), "session_steps": len(j.Prog), "steps_up_to_cut": j.Prog[max(0, j.End.After-4) : j.End.After+1], "end": j.End})
@@ -141,9 +323,9 @@ func checkC11(c *lib.Ctx) {
 	})
 	col.confirm(3)
 	mc.close()
-	r.Note("sessions=%d configs=%d cases=%d children=%d; child deaths: %d", len(progs), len(cfgs), len(jobs), workers, len(col.crashed))
+	r.Note("sessions=%d configs=%d (configuration, session) pairs=%d cases=%d children=%d; child deaths: %d", len(progs), len(cfgs), nPairs, len(jobs), workers, len(col.crashed))
 	if mc == nil {
 		r.Skip("model comparison (driver op c11.run): no --model given")
 	}
-	r.Skip("model comparison, not expressible with the driver op c11.run: INIT and path requests (dropped from the trace: the model has no action for them); requests that do not fit the kind of their live handle (one `use` action: found => called; such sessions are counted in model/skip/…); TransferError of a ListerAt (Request.transferError only tells readers and writers: the model's terr of a directory object is not compared); a context cancelled more than once; the table of the os-backed server after Serve (server.go's sweep closes the files but does not delete the map entries, the model forgets them: unobservable, not compared); for the request server the table CONTENTS (only VerifOpenRequests = its size is exported; the os-backed table is read exactly through VerifSwapFile probes)")
+	r.Skip("model comparison, not expressible with the driver op c11.run: INIT and path requests (dropped from the trace: the model has no action for them); requests that do not fit the kind of their live handle (one `use` action: found => called; such sessions are counted in model/skip/…); TransferError of a ListerAt (Request.transferError only tells readers and writers: the model's terr of a directory object is not compared); a context cancelled more than once; the table of the os-backed server after Serve (server.go's sweep closes the files but does not delete the map entries, the model forgets them: unobservable, not compared); for the request server the table CONTENTS (only VerifOpenRequests = its size is exported; the os-backed table is read exactly through VerifSwapFile probes); WRITE / FSETSTAT refused by a ReadOnly() server (refused before the table is consulted: dropped from the trace like path requests, sessions counted in model/compared-without/readonly-refused-handle-requests); the closed / TransferError counts of handler objects that lack the method (nothing to observe: those fields are left out, sessions counted in model/compared-without/closed-count-of-objects-without-Close)")
 }
